@@ -984,7 +984,7 @@ func (self *_parser) parseRelationalExpression() ast.Expression {
 		if self.token == token.IN {
 			self.next()
 			return &ast.BinaryExpression{
-				Operator: self.token,
+				Operator: token.IN,
 				Left:     left,
 				Right:    self.parseShiftExpression(),
 			}
